@@ -4,6 +4,26 @@ from gen import prog as genprog
 
 SNIPPETS = [
     # (name, source, must_be_diagnosed)
+    ('hex-escape-minus', 'parser { "a\\x-1"; }', False),
+    ('hex-escape-minus-casei', 'parser { "\\x-ak"i; }', False),
+    ('hex-escape-plus', 'parser { "\\x+4"; }', False),
+    ('hex-escape-minus-default', 'out str[4] s = "\\x-f";\nparser { "a"; }', False),
+    ('hex-escape-minus-assign', 'out str[4] s;\nparser { "a"; s = "\\x-2"; }', False),
+    ('hex-escape-minus-case', 'parser { case { "\\x-3" -> { } "b" -> { } } }', False),
+    ('hex-escape-space', 'parser { "\\x 1"; }', False),
+    ('empty-macro-call', 'macro m() {\n}\nparser { "a"; m(); "b"; }', False),
+    ('empty-macro-only', 'macro m() {\n}\nparser { m(); }', False),
+    ('empty-macro-in-optional', 'macro m() {\n}\nparser { "a"; optional { m(); } "b"; }', True),
+    ('empty-macro-in-loop', 'macro m() {\n}\nparser { "a"; loop { m(); } }', True),
+    ('empty-macro-in-clause', 'macro m() {\n}\nparser { case { "a" -> { m(); } "b" -> { m(); "c"; } } }', False),
+    ('empty-macro-nested', 'macro m() {\n}\nmacro m2() { m(); "x"; m(); }\nparser { m2(); m(); }', False),
+    ('empty-macro-in-if', 'out int n;\nmacro m() {\n}\nparser { "a"; if n > 1 { m(); } "b"; }', False),
+    ('form-feed-before-error', 'parser {\n    "a";\f\n    nope();\n}\n', True),
+    ('form-feed-in-error-line', 'parser {\n    "a";\f nope();\n}\n', True),
+    ('lone-cr-before-error', 'parser {\r    "a";\r    nope();\r}\r', True),
+    ('crlf-before-error', 'parser {\r\n    "a";\r\n\tnope();\r\n}\r\n', True),
+    ('vt-before-error', 'parser {\n    "a"; // \x0b\x1c\x85\n    nope();\n}\n', True),
+    ('tab-column-error', 'parser {\n\t\t"a";\tnope();\n}\n', True),
     ('unknown-escape', 'parser { "a\\q"; }', True),
     ('unicode-escape', 'parser { "\\u1234"; }', True),
     ('raw-unicode-char', 'parser { "ሴ"; }', False),
